@@ -36,6 +36,11 @@ CLAIMED = {
          "Alphabet of 15-18 events (updates in two classes, ENABLE/DISABLE_UNSOLICITED for class 1 / all, right and wrong unsolicited confirms, solicited confirm, READ class 1 / class 0, another request, time advances of confirm timeout -1 ms / 1 ms / exactly and retry delay -1 ms / exactly, reconnect), depth 4-5 quick / 5-6 thorough, retry limits 0/1 (quick) and None/0/1/2, retry delay 5 s and 2 s. Monitor: only null responses with fresh sequence numbers until one is confirmed; data only for enabled classes; never a second unsolicited response (nor an early retry) while one is awaited; retries byte-identical, exactly at the confirm timeout, at most the configured number, and not omitted while retries remain; new series no sooner than the retry delay after a failed one; DISABLE ends the series; a READ during the wait gets no immediate response and is answered at the instant the series ends unless superseded; other requests are answered at the instant they arrive; with an ideal master every held event of an enabled class is eventually reported (drain).",
          "Trusted: engine codecs, paused clock (timers fire at their exact instant), DESIGN 2.3. After a reconnect the start of the next series is not constrained. A READ that ends a solicited confirm wait may be overtaken by an unsolicited response starting at the same instant (treated as deferred).",
          "DESIGN.md §5 C14", True),
+ "C11": ("model_checking",
+         "bounded-exhaustive exploration of all event histories of the real outstation task with a mirrored snapshot database and a series-grammar monitor",
+         "Four databases (5 packed binaries; eight types with sparse 8/16-bit indices; 100 analogs = 3 fragments at 249; binaries with non-ONLINE flags forcing promotion and header breaks) x transmit buffers 249/300/2048 x an alphabet of 8-10 READ requests (class 0, class 1230, all objects, ranges inside / overlapping / outside, a specific variation, several headers) plus right / wrong / late confirm, timeout, another request, reconnect, update of a selected and of another point; depth 3-4 quick, 4-5 thorough. Oracle: FIR only first, FIN only last, consecutive sequence numbers, CON iff non-final or event-bearing, next fragment only after the matching confirm and then promptly, nothing after an abort, events before static data, and on completion the concatenated objects equal, header by header, every existing selected point exactly once ascending with the value/flags of the snapshot taken when the READ was delivered, in the requested / configured / promoted variation.",
+         "Trusted: engine codecs incl. the measurement object decoder. Updates at quiescent points between fragments only (H6 not built). Values are small integers representable in every variation used. Order of types within a class-0 answer is not constrained.",
+         "DESIGN.md §5 C11", True),
 }
 
 NOT_YET = {
@@ -46,7 +51,6 @@ NOT_YET = {
  "C08": "designed in DESIGN §5 C08; check not built yet",
  "C09": "designed in DESIGN §5 C09; check not built yet",
  "C10": "designed in DESIGN §5 C10; check not built yet",
- "C11": "designed in DESIGN §5 C11; check not built yet",
  "C15": "designed in DESIGN §5 C15; check not built yet",
  "C16": "designed in DESIGN §5 C16; check not built yet",
  "C17": "designed in DESIGN §5 C17; check not built yet",
